@@ -2,15 +2,19 @@
      [0, s1, s2]                       pair: cacheable?, keys equal?, wf, traversal order, extracted binds
      [1, capacity, stmts, steps]       history against one LRU cache: hit/miss/direct + parameters per step
    node  = [lbl, cls, [attr + 1000 * (2 * aid + truthy) ...], [[attr, [node ...]] ...]]
-   step  = [ctx, stmt index, enabled, [hole label ...]]   (holes: positiontup of the compilation the
-           implementation performed at that step, as labels of the statement's bind parameters) *)
+   step  = [ctx, stmt index, enabled, [hole label ...], [[[label, aid] ...] ...]]
+           (holes: positiontup of the compilation the implementation performed at that step, as labels of
+            the statement's bind parameters; last: the parameter sets of the execution - one empty set for a
+            plain execution - restricted to the statement's own bind parameters)
+     [2, skipmode, args1, args2]       type static cache key of two instances of one type class
+   args  = [[present, aid, truthy] ...] per constructor argument name *)
 From Coq Require Import List NArith ZArith Bool.
 Import ListNotations.
 From SAV.base Require Import Tree.
-From SAV.sql Require Import CacheKey CacheExec.
+From SAV.sql Require Import CacheKey CacheExec CacheKeyTypes.
 Open Scope Z_scope.
 
-Record tabs := mkTabs { tT : ttab; tV : vtab; tG : list (N * N) }.
+Record tabs := mkTabs { tT : ttab; tV : vtab; tG : list (N * N); tSkip : skipmode }.
 
 (* a plain-valued attribute is packed into one integer: attr + 1000 * (2 * aid + truthy); None-valued
    attributes are simply left out *)
@@ -76,19 +80,25 @@ Definition keepers (cap : Z) (l : lru) : list ckey :=
   if (2 * Z.of_nat (length l) >? 3 * cap) then map fst (firstn (Z.to_nat cap) (fold_right insert_desc [] l))
   else map fst l.
 
-Definition dec_step (t : tree) : option (atom * nat * bool * list N) :=
+Definition dec_pset (t : tree) : option pset :=
+  as_list_of (fun e => match e with
+                       | L [l; v] => match as_N l, as_Z v with
+                                     | Some l', Some v' => Some (l', mkA v' true) | _, _ => None end
+                       | _ => None end) t.
+Definition dec_step (t : tree) : option (atom * nat * bool * list N * list pset) :=
   match t with
-  | L [c; i; e; hs] =>
-      match as_Z c, as_nat i, as_bool e, as_list_of as_N hs with
-      | Some c', Some i', Some e', Some hs' => Some (mkA c' true, i', e', hs') | _, _, _, _ => None end
+  | L [c; i; e; hs; sets] =>
+      match as_Z c, as_nat i, as_bool e, as_list_of as_N hs, as_list_of dec_pset sets with
+      | Some c', Some i', Some e', Some hs', Some sets' => Some (mkA c' true, i', e', hs', sets')
+      | _, _, _, _, _ => None end
   | _ => None
   end.
 
-Fixpoint run_hist (tb : tabs) (cap : Z) (stmts : list node) (steps : list (atom * nat * bool * list N))
+Fixpoint run_hist (tb : tabs) (cap : Z) (stmts : list node) (steps : list (atom * nat * bool * list N * list pset))
                   (c : cache unit) (l : lru) (n : Z) : list tree :=
   match steps with
   | [] => []
-  | (ctx, i, en, holes) :: r =>
+  | (ctx, i, en, holes, sets) :: r =>
       match nth_error stmts i with
       | None => [bad_input]
       | Some s =>
@@ -107,14 +117,25 @@ Fixpoint run_hist (tb : tabs) (cap : Z) (stmts : list node) (steps : list (atom 
                            end in
           let keep := keepers cap l1 in
           let ev := fun k => negb (existsb (ckey_eqb k) keep) in
-          let o := exec_cached (tT tb) (tV tb) unit render c (mkStep ctx s en ev) in
+          let o := exec_cached (tT tb) (tV tb) unit render c (mkStep ctx s en ev sets) in
           let l2 := filter (fun e => existsb (ckey_eqb (fst e)) keep) l1 in
-          L [I hit; L (map (fun a => I (aid a)) (snd (fst o)))] :: run_hist tb cap stmts r (snd o) l2 n1
+          L [I hit; L (map (fun vs => L (map (fun a => I (aid a)) vs)) (snd (fst o)))] :: run_hist tb cap stmts r (snd o) l2 n1
       end
   end.
 
+Definition dec_targs (t : tree) : option (list targ) :=
+  as_list_of (fun e => match e with
+                       | L [p; i; b] => match as_bool p, as_Z i, as_bool b with
+                                        | Some p', Some i', Some b' => Some (mkArg p' (mkA i' b')) | _, _, _ => None end
+                       | _ => None end) t.
+
 Definition run_with (tb : tabs) (t : tree) : tree :=
   match t with
+  | L [I 2; a; b] =>
+      match dec_targs a, dec_targs b with
+      | Some x, Some y => of_bool (tkey_eqb (tkey (tSkip tb) x) (tkey (tSkip tb) y))
+      | _, _ => bad_input
+      end
   | L [I 0; a; b] =>
       match dec_node a, dec_node b with
       | Some s1, Some s2 => run_pair tb s1 s2
